@@ -617,6 +617,19 @@ class Graph:
         return any(node.is_interrupt or (isinstance(node, GraphNode) and node.graph.has_interrupts) for node in self._nodes.values())
 
     @property
+    def interrupt_paths(self) -> list[str]:
+        """Slash-separated paths of all interrupt nodes, nested graphs included (for error messages)."""
+        from hypergraph.nodes.graph_node import GraphNode
+
+        paths: list[str] = []
+        for node in self._nodes.values():
+            if node.is_interrupt:
+                paths.append(node.name)
+            elif isinstance(node, GraphNode):
+                paths.extend(f"{node.name}/{inner}" for inner in node.graph.interrupt_paths)
+        return paths
+
+    @property
     def interrupt_nodes(self) -> list:
         """Ordered list of interrupt node instances."""
         return [node for node in self._nodes.values() if node.is_interrupt]
